@@ -52,6 +52,9 @@ type evMethod struct {
 	L       []ssa.CallInstruction
 }
 
+// isListenerCall: a dynamic call of an element of the resource's listener
+// slice (the field of resource whose type is []func(*Event); resolved by
+// type, not by name).
 func isListenerCall(c ssa.CallInstruction) bool {
 	if !core.IsDynamic(c) {
 		return false
@@ -65,7 +68,15 @@ func isListenerCall(c ssa.CallInstruction) bool {
 		return false
 	}
 	f, ok := core.LoadedField(ia.X)
-	return ok && f.Struct == "resource" && f.Name == "listeners"
+	if !ok || f.Struct != "resource" {
+		return false
+	}
+	sl, ok := ia.X.Type().Underlying().(*types.Slice)
+	if !ok {
+		return false
+	}
+	sig, ok := sl.Elem().Underlying().(*types.Signature)
+	return ok && sig.Params().Len() == 1 && core.TypeName(sig.Params().At(0).Type()) == "Event"
 }
 
 func c08(r *core.Run) {
@@ -83,6 +94,19 @@ func c08(r *core.Run) {
 
 	root := p.FuncsOfPkg("")
 	mp := mayPublish(p)
+	// helpers that (transitively) call listeners / apply handlers
+	mayNotify := mayExec(root, func(in ssa.Instruction) bool {
+		c, ok := in.(ssa.CallInstruction)
+		return ok && isListenerCall(c)
+	})
+	isApplyCall := func(in ssa.Instruction) bool {
+		c, ok := in.(ssa.CallInstruction)
+		if !ok || !core.IsDynamic(c) {
+			return false
+		}
+		f, ok := core.LoadedField(c.Common().Value)
+		return ok && f.Struct == "Handler" && strings.HasPrefix(f.Name, "Apply")
+	}
 	hT := p.NamedType("", "Handler")
 	if hT == nil {
 		r.Unres("O1", "Handler", "type not found")
@@ -108,15 +132,21 @@ func c08(r *core.Run) {
 		}
 		for _, c := range core.Calls(fn) {
 			if core.IsDynamic(c) {
-				if f, ok := core.LoadedField(c.Common().Value); ok && f.Struct == "Handler" && strings.HasPrefix(f.Name, "Apply") {
+				if isApplyCall(c) {
 					m.A = append(m.A, c)
 				}
 				if isListenerCall(c) {
 					m.L = append(m.L, c)
 				}
 			}
-			if cal := c.Common().StaticCallee(); cal != nil && mp[cal] && !core.IsGo(c) {
-				m.P = append(m.P, c)
+			if cal := c.Common().StaticCallee(); cal != nil && !core.IsGo(c) {
+				switch {
+				case mp[cal]:
+					m.P = append(m.P, c)
+				case mayNotify[cal] && cal.Pkg == fn.Pkg:
+					// a helper that runs the listeners (e.g. notifyListeners(ev))
+					m.L = append(m.L, c)
+				}
 			}
 		}
 		methods = append(methods, m)
@@ -224,9 +254,13 @@ func c08(r *core.Run) {
 			r.Check(good && !core.IsGo(c), "O2", fname, "listener-after-publish", p.InstrPos(c), "listeners are only called after the event was published, synchronously", "a listener can be called before the publish (or on its own goroutine)")
 		}
 		// ---- O3 ----
+		isL := map[ssa.Instruction]bool{}
+		for _, c := range m.L {
+			isL[c] = true
+		}
 		isPL := func(in ssa.Instruction) bool {
 			if c, ok := in.(ssa.CallInstruction); ok {
-				return isP[in] || isListenerCall(c)
+				return isP[in] || isL[in] || isListenerCall(c)
 			}
 			return false
 		}
@@ -450,10 +484,10 @@ func c08Validity(r *core.Run, m *evMethod, res *core.FlowResult) {
 	p := r.P
 	fn := m.fn
 	fname := core.FuncName(fn)
-	guards := panicGuards(fn)
-	domAll := func(iff *ssa.If) bool {
+	guards := guardMap(fn)
+	domAll := func(at ssa.Instruction) bool {
 		for _, c := range append(append([]ssa.CallInstruction{}, m.A...), m.P...) {
-			if !core.Dominates(iff, c) {
+			if !core.Dominates(at, c) {
 				return false
 			}
 		}
@@ -495,7 +529,11 @@ func c08Validity(r *core.Run, m *evMethod, res *core.FlowResult) {
 		for _, n := range reservedEventNames {
 			need(fmt.Sprintf("param:%s==%q", evParam, n), "reserved-name("+n+")")
 		}
-		need("!cond(call:isValidPart)", "malformed-name")
+		if at, ok := panicsUnlessCall(fn, "isValidPart"); ok && domAll(at) {
+			r.OK("O4", fname, "panics-on:malformed-name", p.InstrPos(at), "a name rejected by the token validator panics before apply and publish")
+		} else {
+			r.Bad("O4", fname, "panics-on:malformed-name", p.Pos(fn.Pos()), "the custom event name is not validated by the token validator on a panicking edge that dominates the publish")
+		}
 	}
 }
 
@@ -506,11 +544,11 @@ func c08EventFields(r *core.Run, m *evMethod) {
 	if len(m.L) == 0 {
 		return
 	}
-	// the Event allocation passed to listeners
+	// the Event allocation passed to listeners (directly or through a helper)
 	var ev *ssa.Alloc
 	for _, c := range m.L {
-		if len(c.Common().Args) == 1 {
-			if a, ok := c.Common().Args[0].(*ssa.Alloc); ok {
+		for _, arg := range c.Common().Args {
+			if a, ok := arg.(*ssa.Alloc); ok && core.TypeName(a.Type()) == "Event" {
 				ev = a
 			}
 		}
@@ -532,14 +570,27 @@ func c08EventFields(r *core.Run, m *evMethod) {
 			}
 		}
 	}
-	// subject suffix of the publish
+	// subject suffix of the publish: everything after the resource name
 	suffix := ""
 	if len(m.P) > 0 && len(m.P[0].Common().Args) >= 2 {
-		if bo, ok := m.P[0].Common().Args[1].(*ssa.BinOp); ok && bo.Op == token.ADD {
-			if s, ok := core.ConstString(bo.Y); ok {
-				suffix = s
-			} else if prm, ok := bo.Y.(*ssa.Parameter); ok {
-				suffix = "." + "param:" + prm.Name()
+		parts := subjectParts(m.P[0].Common().Args[1])
+		seenName := false
+		for _, pt := range parts {
+			if !pt.IsC {
+				if f, ok := core.LoadedField(pt.V); ok && f.Struct == "resource" && !seenName {
+					seenName = true
+					continue
+				}
+			}
+			if !seenName {
+				continue
+			}
+			if pt.IsC {
+				suffix += pt.Const
+			} else if prm, ok := pt.V.(*ssa.Parameter); ok {
+				suffix += "param:" + prm.Name()
+			} else {
+				suffix += "?"
 			}
 		}
 	}
